@@ -1,15 +1,15 @@
 SPEC = {
-    "claimed": False,
+    "claimed": True,
     "gen": [],
-    "theorems": ["C11_nonvacuous"],
+    "theorems": ['C11_total', 'C11_limits', 'C11_reusable', 'C11_nonvacuous'],
     "allowed_axioms": [],
     "extract": {
         "LibTw2.Model.Snap": ['add_item', 'raw_items', 'raw_item', 'crc', 'raw_write_to_ints', 'raw_write_bytes', 'raw_read_from_ints', 'raw_read_bytes', 'create_raw', 'raw_read_with_delta', 'k09', 'delta_write_to_ints', 'delta_write_bytes', 'delta_read_from_ints', 'delta_read_bytes', 'builder_new', 'builder_add', 'builder_finish', 'snap_recycle', 'snap_items', 'snap_item', 'snap_read_from_ints', 'snap_read_bytes', 'snap_read_with_delta', 'raw_empty', 'snap_empty', 'delta_empty', 'uuid_of_bytes', 'uuid_to_bytes', 'key_to_raw_type_id', 'key_to_id'],
     },
-    "components": [{"bin": "snap", "driver": "drv_snap", "args": ["c11"], "timeout": {"quick": 900, "thorough": 3000}}],
+    "components": [{"bin": "snap", "driver": "drv_snap", "args": ["c11"], "timeout": {"quick": 1200, "thorough": 6000}}],
     "release": False,
     "rule": "see components.snap.rule",
-    "trusted_base": [],
-    "assumptions": [],
-    "explanation": "",
+    "trusted_base": ['Model/Snap.v is hand-written from snapshot/src/snap.rs and snapshot/src/format.rs (RawSnap as a key-sorted association list + flat buffer, every assert/unwrap/slice/debug overflow an explicit Panic site); it is tied to the code by the component `snap` (same scripts through the real crate and the extracted model)', "write_impl is modelled as 'all ints, then the capacity check' (a CapacityError and a later panic can only compete on snapshots that break raw_ok, which never happens: snap_ints_spec)", 'varints: Model/Varint.v and its C08 theorems (read_write_int, read_int_arith, read_int_a_consumes)'],
+    "assumptions": ['input bytes are u8 (bytes_ok), input words are i32, inputs are shorter than 2^31-1 items (the i32 update counter of Delta::read_impl)', 'item lookups use ordinal type ids in 1..0x3fff (Snap::item asserts it)', 'Delta::create between two accepted snapshots that share a key with different lengths panics: known finding K09 (stated in C11_reusable)', 'allocation: not a theorem; the harness meters the real allocator (peak live bytes while reading <= 48 x input bytes + 4 KiB) on every hostile input'],
+    "explanation": 'C11_total: no reader (snapshot or delta, ints or bytes) and no read_with_delta on accepted values ends in Panic or OutOfFuel; C11_limits: every accepted snapshot has <= 1024 items and serialises to <= 64 KiB; C11_reusable: an accepted snapshot written and read back cannot be told apart (items, item, crc), enumerate/lookup/recycle/add_item/create/apply run on it without panic (K09 aside). `accepted` is the inductive closure of the readers, read_with_delta and Delta::create. On the unfixed tree refuted by defects #8, #9, #10 (fixed: ebb1170, ba61ffa, 4fa335f).',
 }
